@@ -8,6 +8,8 @@ functions over the cluster description only (no use of the model's maps, routing
 import KafkaVerif.Base.Proto
 import KafkaVerif.Model.Routing
 import KafkaVerif.Model.Discover
+import KafkaVerif.Model.Split
+import KafkaVerif.Model.RoundTrip
 import KafkaVerif.Spec.Routing
 import KafkaVerif.Gen.Routing
 
@@ -73,6 +75,7 @@ def parseResources (s : String) : Option (List (Int × String × Option Int)) :=
 structure Req where
   info : ReqInfo := {}
   groups : List String := []
+  txn : String := ""
   deriving Inhabited
 
 def parseReq (s : String) : Option Req :=
@@ -81,7 +84,7 @@ def parseReq (s : String) : Option Req :=
   | 'T' => do let tps ← parseTps body; pure { info := { tps := tps } }
   | 'R' => do let rs ← parseResources body; pure { info := { resources := rs } }
   | 'G' => pure { groups := splitD body "," }
-  | 'X' => pure {}
+  | 'X' => pure { txn := body }
   | 'N' => pure {}
   | _ => none
 
@@ -194,35 +197,40 @@ def showSent (xs : List Sent) (overallErr : Option String) : String :=
 
 def firstErr (xs : List Sent) : Option String := xs.findSome? fun | .err k => some k | _ => none
 
-def sendModel (a : ApiMethods) (boot : Int) (m : MResponse) (down : List Int) (vt : VTable) (coords : List Int) (q : Req) : String :=
-  let c := makeLayout (normalize m)
-  let splits := roundTripCases.contains .splitter && a.split
-  if a.pkg == "listoffsets" && splits then
-    let parts := q.info.tps.flatMap fun (t, ps) => ps.map fun p => ({ tps := [(t, [p])] } : ReqInfo)
-    let rs := parts.map (sendOne a boot c down vt)
-    -- Merge: an error only when every part failed
-    let allFailed := !rs.isEmpty && rs.all fun | .err _ => true | _ => false
-    showSent rs (if allFailed then firstErr rs else none)
-  else if a.group && splits then
-    -- describegroups (and every group request type that splits per group): one part per group
-    let rs := coords.map fun co => sendOne a boot c down vt { coordinator := co }
-    showSent rs (firstErr rs)
-  else if a.pkg == "listgroups" && splits then
-    -- one part per broker of the layout (Go map order: the error reported is any part's)
-    let rs := c.brokers.map fun (k, _) => sendOne a boot c down vt { field := k }
-    showSent rs ((firstErr rs).map fun _ => "some")
-  else if a.pkg == "describeconfigs" && splits then
-    -- one part per broker resource, then one for all other resources
-    let brokerRs := q.info.resources.filter (·.1 == 4)
-    let rest := q.info.resources.filter (·.1 != 4)
-    let parts := brokerRs.map (fun r => ({ resources := [r] } : ReqInfo)) ++
-      (if rest.isEmpty then [] else [({ resources := rest } : ReqInfo)])
-    let rs := parts.map (sendOne a boot c down vt)
-    showSent rs (firstErr rs)
-  else
+/-- the FindCoordinator lookups sendRequest makes (on the control connection) before a group / transactional request:
+key, key type (0 group, 1 transaction) and the broker asked -/
+def lookups (a : ApiMethods) (boot : Int) (split : Bool) (q : Req) : List String :=
+  let toks (keys : List String) (ty : Nat) : List String := keys.map fun k => s!"{dash k}/{ty}@b{boot}"
+  match firstCase sendRequestCases a with
+  | some .group => toks (if split then q.groups else [q.groups.headD ""]) 0
+  | some .transaction => toks [q.txn] 1
+  | _ => []
+
+def withLookups (body : String) (fcs : List String) : String :=
+  if fcs.isEmpty || body.isEmpty then body else s!"{body} fc={",".intercalate (sortBy (fun a b => a < b) fcs)}"
+
+def sendBody (a : ApiMethods) (boot : Int) (c : Cluster) (down : List Int) (vt : VTable) (coords : List Int) (q : Req) : String :=
+  match KV.Split.parts roundTripCases a c coords q.info with
+  | some (ps, rule) =>
+    let rs := ps.map (sendOne a boot c down vt)
+    match rule with
+    | .allFailed =>
+      -- ListOffsets Merge: an error only when every part failed
+      let allFailed := !rs.isEmpty && rs.all fun | .err _ => true | _ => false
+      showSent rs (if allFailed then firstErr rs else none)
+    | .anyFailed =>
+      -- ListGroups iterates a Go map: the error reported is any failed part's
+      showSent rs (if a.pkg == "listgroups" then (firstErr rs).map fun _ => "some" else firstErr rs)
+  | none =>
     let r := { q.info with coordinator := coords.headD (-1) }
     let s := sendOne a boot c down vt r
     showSent [s] (firstErr [s])
+
+def sendModel (a : ApiMethods) (boot : Int) (m : MResponse) (down : List Int) (vt : VTable) (coords : List Int) (q : Req) : String :=
+  let c := makeLayout (normalize m)
+  let isSplit := (KV.Split.parts roundTripCases a c coords q.info).isSome
+  let fcs := if a.apiKey == 10 then [] else lookups a boot isSplit q
+  withLookups (sendBody a boot c down vt coords q) fcs
 
 /-! ### `send`: the property monitor on the journal -/
 
@@ -245,8 +253,23 @@ def removeOne (x : Int) : List Int → Option (List Int)
   | [] => none
   | y :: ys => if x == y then some ys else (removeOne x ys).map (y :: ·)
 
+/-- the coordinator lookups observed: (key, type) pairs; a transactional request must look its coordinator up with
+key type 1 and its transactional id, a group request with key type 0 and (one of) its group id(s) -/
+def lookupsOK (key : Nat) (q : Req) (fc : String) : Bool :=
+  let toks := (splitD fc ",").map fun t => ((t.splitOn "@").headD "").splitOn "/"
+  match routingClass key with
+  | some .txnCoordinator => !toks.isEmpty && toks.all fun t => t == [dash q.txn, "1"]
+  | some .groupCoordinator => !toks.isEmpty && toks.all fun t => match t with
+      | [k, "0"] => q.groups.isEmpty || q.groups.contains k || (k == "-" && q.groups.contains "")
+      | _ => false
+  | _ => true
+
 def sendHolds (key : Nat) (split : Bool) (boot : Int) (m : MResponse) (down : List Int) (cr : Int × Int) (vt : VTable)
-    (coords : List Int) (q : Req) (impl : String) : Bool :=
+    (coords : List Int) (q : Req) (implFull : String) : Bool :=
+  let (impl, fc) := match implFull.splitOn " fc=" with
+    | [a, b] => (a, b)
+    | _ => (implFull, "-")
+  lookupsOK key q fc &&
   match parseSent impl with
   | none => false
   | some (oks, err) =>
@@ -331,6 +354,47 @@ def followModel (script : List String) : String :=
     | none => "within=0 gap=1"   -- the loop left before the script ended: no refresh ever follows the move
 where good0 : List KV.Discover.DEvent := [.tick, .answer ⟨0, [⟨0, "b0", 9092, ""⟩], "", 0, []⟩]
 
+/-! ### `rtmeta`: metadata requests through roundTrip -/
+
+/-- the topic the fake cluster auto-creates: one partition led by the controller -/
+def createdTopic (m : MResponse) (n : String) : MTopic := ⟨0, n, false, [⟨0, 0, m.controller, [m.controller], [m.controller], []⟩]⟩
+
+/-- the cluster's metadata after the broker handled an auto-creating request for `names` -/
+def afterCreate (m : MResponse) (names : List String) (fakeAuto : Bool) : MResponse :=
+  if !fakeAuto then m else
+  names.foldl (fun acc n => if acc.topics.any (·.name == n) then acc else { acc with topics := acc.topics ++ [createdTopic m n] }) m
+
+open KV.RoundTrip in
+def rtmetaModel (names : Option (List String)) (auto fakeAuto : Bool) (m : MResponse) : String :=
+  let s := update {} (some m) false
+  match metadataDecision s ⟨names, auto⟩ with
+  | .fromCache res => s!"asked=0 {showMTopics res.topics} after={showMTopics res.topics}"
+  | .askBroker =>
+    let ns := names.getD []
+    let m' := afterCreate m ns fakeAuto
+    -- the broker answers in request order, partitions in the fake's (descending) order; the caller gets it as is
+    let direct := ns.map fun n => match m'.topics.find? (·.name == n) with
+      | some t => { t with partitions := sortBy (fun a b => decide (a.index > b.index)) t.partitions }
+      | none => unknownTopic n
+    -- … then roundTrip waits until the created topics are in the cache: the follow-up is served from it
+    let after := filterMetadata names (normalize m')
+    s!"asked=1 {showMTopics direct} after={showMTopics after.topics}"
+  | .cacheError => "err"
+  | .noCache => "panic"
+
+def rtmetaHolds (names : Option (List String)) (auto fakeAuto : Bool) (m : MResponse) (impl : String) : Bool :=
+  let unknownAsked := match names with
+    | some ns => ns.any fun n => (byName m n).isNone
+    | none => false
+  let wantAsked := auto && unknownAsked
+  let m' := if wantAsked then afterCreate m (names.getD []) fakeAuto else m
+  let wantAfter := specFilter names m'
+  match impl.splitOn " after=" with
+  | [front, after] =>
+    after == wantAfter && front.startsWith (if wantAsked then "asked=1 " else "asked=0 ") &&
+    (wantAsked || front == s!"asked=0 {specFilter names m}")
+  | _ => false
+
 /-! ### dispatcher -/
 
 def kv (pfx : String) (s : String) : Option String :=
@@ -402,6 +466,12 @@ def step (line : String) : String :=
         answer (sendModel a boot m down vt coords q)
           (sendHolds a.apiKey a.split boot m down (c1, c2) vt coords q impl)
       | _, _, _, _, _, _, _, _ => "bad-op"
+    | ["rtmeta", ns, auto, fauto, m] =>
+      match parseMeta m with
+      | some m =>
+        let names := if ns == "nil" then none else some (splitD ns ",")
+        answer (rtmetaModel names (auto == "1") (fauto == "1") m) (rtmetaHolds names (auto == "1") (fauto == "1") m impl)
+      | none => "bad-op"
     | ["follow", _, faults] =>
       match kv "faults=" faults with
       | some fs => answer (followModel (splitD fs ",")) (impl == "within=1 gap=1")
